@@ -99,7 +99,7 @@ func vsJSONUnmarshal(data []byte, v interface{}) error {
 // VsH_DecodeTotal: DecodeMessage on an arbitrary frame returns (msg, nil) or (_, err); no panic condition is
 // reachable (checked by the engine for every implicit and explicit panic site on the path).
 func VsH_DecodeTotal() {
-	vsShape = vsFork(2, "shape")
+	vsShape = vsFork(vsBound("shapes"), "shape")
 	n := vsFork(4, "framelen") // 0, 1, 2, 3+ bytes
 	var data []byte
 	if n < 3 {
@@ -108,12 +108,8 @@ func VsH_DecodeTotal() {
 		data = vsNondetBytes(6, "frame")
 	}
 	if len(data) >= 2 {
-		typ := vsFork(8, "type") // the six defined types, reserved 0, and "anything else"
-		if typ < 7 {
-			data[0], data[1] = 0, byte(typ)
-		} else {
-			vsAssume(data[0] != 0 || data[1] > 6)
-		}
+		typ := vsFork(8, "type") // the six defined types, reserved 0, and 7 (arbitrary prefixes: VsH_TypePrefix)
+		data[0], data[1] = 0, byte(typ)
 	}
 	msg, err := DecodeMessage(data)
 	if err == nil {
@@ -124,4 +120,23 @@ func VsH_DecodeTotal() {
 	} else {
 		vsReach("rejected")
 	}
+}
+
+// VsH_TypePrefix: for every 2-byte prefix, a message is produced only for the six defined types and has that type.
+func VsH_TypePrefix() {
+	data := vsNondetBytes(4, "frame")
+	msg, err := DecodeMessage(data)
+	defined := data[0] == 0 && data[1] >= 1 && data[1] <= 6
+	if !defined {
+		vsAssert(err != nil && msg == nil, "undefined-prefix-rejected")
+		vsReach("undefined")
+	} else {
+		vsAssert(msg != nil, "defined-prefix-yields-message-object")
+		vsAssert(uint16(msg.MsgType()) == uint16(data[0])<<8|uint16(data[1]), "type-matches-prefix")
+		vsReach("defined")
+	}
+	// msgTypeToBytes / msgTypeFromBytes are inverse
+	t := MsgType(vsNondetU16("t"))
+	back, e2 := msgTypeFromBytes(msgTypeToBytes(t))
+	vsAssert(e2 == nil && back == t, "type-prefix-roundtrip")
 }
